@@ -116,7 +116,8 @@ def configs(tier):
     if quick:
         combos = [('flat', 2, 'int16', 'int', 'slice'), ('array', 1, 'float32', 'float', 'slice'),
                   ('flat', 2, 'float32', 'int', 'int'), ('array', 1, 'int16', 'float', 'list2'),
-                  ('array', 1, 'uint16', 'float', 'int')]
+                  ('array', 1, 'uint16', 'float', 'int'), ('array', 1, 'int16', 'i64', 'int'),
+                  ('flat', 2, 'int16', 'f32', 'int')]
     else:
         combos = [('flat', 2, 'int16', 'int', 'slice'), ('flat', 2, 'float32', 'float', 'slice'),
                   ('flat', 2, 'float64', 'int', 'int'), ('flat', 2, 'int16', 'float', 'list2'),
@@ -124,7 +125,8 @@ def configs(tier):
                   ('array', 1, 'float64', 'float', 'list2'), ('npy', 1, 'int16', 'int', 'slice'),
                   ('npy', 1, 'float32', 'float', 'list2'), ('cbin', 1, 'int16', 'float', 'slice'),
                   ('cbin', 1, 'float32', 'int', 'slice'), ('array', 1, 'uint16', 'float', 'int'),
-                  ('flat', 2, 'uint8', 'int', 'slice')]
+                  ('flat', 2, 'uint8', 'int', 'slice'), ('array', 1, 'int16', 'i64', 'int'),
+                  ('flat', 2, 'int16', 'f32', 'int'), ('npy', 1, 'float32', 'i64', 'slice')]
     for ci, (backend, K, dtype, sk, item) in enumerate(combos):
         # thorough: depth 3 on the first four combinations, depth 2 on the others
         D = 2 if (quick or ci >= 4) else 3
@@ -174,7 +176,22 @@ def _mkarg(e, op, sk, i, width, col0=None):
     if op in ('mul', 'rmul', 'truediv', 'floordiv'):
         # products/quotients of two symbolic values are nonlinear: the factor is a concrete constant
         # (the arithmetic itself is not the subject; see ASSUMPTIONS)
-        a = (3 if sk == 'int' else 1.5) if i % 2 == 0 else (-2 if sk == 'int' else 0.5)
+        a = (3 if sk in ('int', 'i64') else 1.5) if i % 2 == 0 else (-2 if sk in ('int', 'i64') else 0.5)
+        if sk == 'i64':
+            a = np.int64(a)
+        elif sk == 'f32':
+            a = np.float32(a)
+        return a, a
+    if sk == 'i64':
+        # a typed NumPy scalar operand: the result dtype follows NumPy's promotion with that type
+        a = e.int('a%d' % i)
+        e.assume(sand(a >= -2 ** 40, a <= 2 ** 40))
+        e.prefer.append(sand(a >= -3, a <= 5))
+        a = snp.mkscalar(a, np.dtype('int64'))
+        return a, a
+    if sk == 'f32':
+        c = e.choice('f32_%d' % i, [0, 1, 2])
+        a = np.float32([0.5, 1.5, -2.0][c])
         return a, a
     if sk == 'int':
         a = e.int('a%d' % i)
@@ -322,6 +339,10 @@ def _conc_arg(op, a, scalar):
         return a
     if op in ('pow', 'rpow'):
         return int(a)
+    if scalar == 'i64':
+        return np.int64(a)
+    if scalar == 'f32':
+        return np.float32(a)
     return int(a) if scalar == 'int' else float(a)
 
 
